@@ -2,6 +2,7 @@ package main
 
 import (
 	"go/types"
+	"os"
 
 	"golang.org/x/tools/go/ssa"
 )
@@ -186,4 +187,38 @@ func closureWrites(fn *ssa.Function, busy map[*ssa.Function]bool) map[int]bool {
 		}
 	}
 	return out
+}
+
+// addReach registers a reachability probe for one branch edge of the function under contract. Probes are
+// diagnostics, never obligations: a branch that no path of the MODEL can take (a re-check after re-acquiring a lock
+// that the sequential model can never see changed, defensive code) is listed in the evidence as
+// branches_unreachable_in_model, so that a contract author can see which code the clauses do not constrain.
+func (e *Engine) addReach(st *State, name string) {
+	if st.dead {
+		return
+	}
+	o, ok := e.obls[name]
+	if !ok {
+		o = &Obl{Name: name, Kind: "reach", Src: "branch edge reachable in the model", Expect: "sat"}
+		e.obls[name] = o
+		e.oblOrder = append(e.oblOrder, name)
+	}
+	if len(o.Paths) < 8 {
+		o.Paths = append(o.Paths, &OblPath{PC: append([]string{}, st.pc...), Goal: "false"})
+	}
+}
+
+// reachProbesFor: only the function under contract and the closures declared inside it get probes.
+var reachProbes = os.Getenv("SPECV_REACH") != ""
+
+func (e *Engine) reachProbesFor(fn *ssa.Function) bool {
+	if !reachProbes || e.unit == nil || e.unit.Fn == nil {
+		return false
+	}
+	for f := fn; f != nil; f = f.Parent() {
+		if f == e.unit.Fn {
+			return true
+		}
+	}
+	return false
 }
